@@ -43,9 +43,11 @@ def _many_stems(tier):
     """More than ten stems (two-digit region and variable indices): h hairpins of stem length 1-2 before, between or after the stems of a small
     knot (H-type with unequal stems, kissing hairpins, three mutually crossing stems). Built as chord diagrams: each hairpin is an arc (e, e+1)."""
     knots = {"H": [(0, 2), (1, 3)], "kissing": [(0, 2), (1, 4), (3, 5)], "triangle": [(0, 3), (1, 4), (2, 5)]}
-    for h in ((9, 10, 12) if tier == "quick" else (8, 9, 10, 11, 12, 14, 18)):
+    for h in ((9, 10, 12, 32, 33, 34, 100, 520) if tier == "quick" else (8, 9, 10, 11, 12, 14, 18, 31, 32, 33, 34, 35, 64, 100, 255, 256, 257, 520, 700)):
         for name, karcs in knots.items():
             for where in ("before", "after", "inside"):
+                if h > 30 and (name, where) not in (("H", "before"), ("kissing", "inside"), ("triangle", "after")):
+                    continue  # several dozen / several hundred stems: one placement per knot kind
                 K = h + len(karcs)
                 npts = 2 * len(karcs)
                 if where == "before":
